@@ -42,6 +42,7 @@ import (
 type vStep struct {
 	A string `json:"a"`
 	C bool   `json:"c"`
+	D string `json:"d"` // eval: "ok" | "fail" - is the contact point reachable at this evaluation
 }
 
 type vBeh struct {
@@ -63,7 +64,11 @@ type vObs struct {
 	Mixed  bool   `json:"mixed,omitempty"`
 	CmpOK  bool   `json:"cmp_ok"`
 	Detail string `json:"detail,omitempty"`
-	NEval  uint64 `json:"neval,omitempty"`
+	NEval  uint64 `json:"neval"`
+	D      string `json:"d"`      // delivery mode of this evaluation
+	Att    int    `json:"att"`    // connections the receivers saw while refusing (delivery attempts that failed)
+	HState string `json:"hstate"` // state of the newest alert_history_details row
+	HErr   string `json:"herr,omitempty"` // error returned by handleAlertCondition (recorded, not judged)
 }
 
 type vTrace struct {
@@ -81,6 +86,17 @@ type vTrace struct {
 type vHook struct {
 	mu    sync.Mutex
 	stats []string
+	fail  bool // receivers drop every connection without answering
+	att   int
+}
+
+func (h *vHook) setFail(f bool) int {
+	h.mu.Lock()
+	defer h.mu.Unlock()
+	a := h.att
+	h.att = 0
+	h.fail = f
+	return a
 }
 
 func (h *vHook) take() []string {
@@ -262,6 +278,21 @@ func TestVerifAlertsReplay(t *testing.T) {
 	// process.  The loopback receivers therefore answer "Connection: close", and several of them share the load so that
 	// ephemeral ports in TIME_WAIT do not run out on long runs.
 	handler := http.HandlerFunc(func(w http.ResponseWriter, r *http.Request) {
+		hook.mu.Lock()
+		refuse := hook.fail
+		if refuse {
+			hook.att++
+		}
+		hook.mu.Unlock()
+		if refuse { // contact point down: the connection is dropped, nothing is delivered
+			if hj, ok := w.(http.Hijacker); ok {
+				if c, _, err := hj.Hijack(); err == nil {
+					c.Close()
+					return
+				}
+			}
+			panic(http.ErrAbortHandler)
+		}
 		var b alertutils.WebhookBody
 		data, _ := io.ReadAll(r.Body)
 		_ = json.Unmarshal(data, &b)
@@ -371,7 +402,7 @@ func vRunOne(b *vBeh, contact *alertutils.Contact, side *gorm.DB, hook *vHook) (
 	shapes := []string{"records", "grouped", "metrics"}
 
 	for _, st := range b.Steps {
-		o := vObs{A: st.A, C: st.C, Sent: "none", CmpOK: true}
+		o := vObs{A: st.A, C: st.C, Sent: "none", CmpOK: true, D: "ok"}
 		switch st.A {
 		case "eval":
 			o.Shape = shapes[rnd.Intn(3)]
@@ -385,8 +416,14 @@ func vRunOne(b *vBeh, contact *alertutils.Contact, side *gorm.DB, hook *vHook) (
 			if !o.Mixed && eff != st.C {
 				o.CmpOK = false
 			}
-			if err := handleAlertCondition(alert, eff, "verif-data"); err != nil {
-				return fail("handleAlertCondition: %v", err)
+			if st.D == "fail" {
+				o.D = "fail"
+			}
+			hook.setFail(o.D == "fail")
+			herr := handleAlertCondition(alert, eff, "verif-data")
+			o.Att = hook.setFail(false)
+			if herr != nil { // what the caller (evaluateLogAlert) would log; state and history are judged on what the store says
+				o.HErr = herr.Error()
 			}
 			cur, err := databaseObj.GetAlert(id)
 			if err != nil {
@@ -394,6 +431,12 @@ func vRunOne(b *vBeh, contact *alertutils.Contact, side *gorm.DB, hook *vHook) (
 			}
 			o.State = vStateName(cur.State)
 			o.NEval = cur.NumEvaluationsCount
+			if hl, herr2 := databaseObj.GetAlertHistoryByAlertID(&alertutils.AlertHistoryQueryParams{AlertId: id, Limit: 1,
+				SortOrder: alertutils.DESC}); herr2 == nil && len(hl) > 0 {
+				o.HState = vStateName(hl[0].AlertState)
+			} else {
+				o.HState = "no-row"
+			}
 			got := hook.take()
 			switch len(got) {
 			case 0:
